@@ -692,6 +692,12 @@ func (w *vfWorld) runPlan(steps []vfStep) {
 			for j < len(steps) && steps[j].Par == steps[i].Par {
 				j++
 			}
+		} else if steps[i].Serial {
+			// sequential reference execution of a concurrent group: the requests are
+			// built together (same bytes as in the concurrent run), then served one by one
+			for j < len(steps) && steps[j].Serial {
+				j++
+			}
 		}
 		w.stepIdx = i
 		var group []*vfPrepared
@@ -714,7 +720,11 @@ func (w *vfWorld) runPlan(steps []vfStep) {
 				fns = append(fns, p.call.exec)
 			}
 		}
-		if len(fns) > 0 {
+		if len(fns) > 0 && steps[i].Serial {
+			for k := range fns {
+				w.sched.runGroup(names[k:k+1], fns[k:k+1])
+			}
+		} else if len(fns) > 0 {
 			w.sched.runGroup(names, fns)
 		}
 		for _, p := range group {
